@@ -4,6 +4,7 @@ import (
 	"context"
 	"encoding/asn1"
 	"fmt"
+	math "github.com/IBM/mathlib"
 	"sync"
 	"testing"
 
@@ -76,6 +77,7 @@ type c10CryptoCase struct {
 var c10CryptoTargets = []string{
 	"bls.Verifier.Init", "bls.Verifier.Verify", "bls.Verifier.AggregateSignatures",
 	"ps.TPS.Sign", "ps.Verifier.Init", "ps.Verifier.Verify", "ps.Prover.UnBlind",
+	"ps.TPS.Sign/request-for-another-message-length",
 }
 
 func genC10Crypto(t *rapid.T) c10CryptoCase {
@@ -160,6 +162,25 @@ func runC10Crypto(c c10CryptoCase) *vh.Outcome {
 		var rbs ps.RawBlindSignature
 		var inner ps.RawBlindCorrectProof
 		input = structural(f.chain.Request, &rbs, func() []byte { return rbs.CorrectFormProof }, func(b []byte) { rbs.CorrectFormProof = b }, &inner)
+		s, _ := f.ps.Signer(1)
+		callErr, o.Fail = guard(sig, func() error { _, err := s.Sign(context.Background(), input); return err })
+	case "ps.TPS.Sign/request-for-another-message-length":
+		// a request that is consistent in itself but was built (with the library's own client functions) for a message of
+		// another length than the signers were set up for: every vector is one or two elements longer or shorter
+		n := f.ps.L + []int{-1, 1, 2, -2, 3}[c.Op.Arg%5]
+		if n < 1 {
+			n = f.ps.L + 1
+		}
+		pp := ps.Setup(fix.Curve, n)
+		ms := make([]*math.Zr, n)
+		for i := range ms {
+			ms[i] = fix.Curve.HashToZr([]byte{byte(i), byte(c.Op.Arg)})
+		}
+		bs, _ := ps.Blind(&pp, fix.Curve, ms)
+		input = bs.Bytes()
+		if c.Struct { // plus a byte-level mutation on top
+			input = c.Mut.apply(input, f.proof)
+		}
 		s, _ := f.ps.Signer(1)
 		callErr, o.Fail = guard(sig, func() error { _, err := s.Sign(context.Background(), input); return err })
 	case "ps.Verifier.Init":
